@@ -466,3 +466,45 @@ def typed_grid_case(rng):
     body = "\n".join(stmts)
     ctx = rng.choice(CONTEXTS).replace("{{", "\x01").replace("}}", "\x02").replace("{s}", body).replace("\x01", "{").replace("\x02", "}")
     return PRELUDE + ctx + "\n"
+
+
+# ------------------------------------------------------------------------------ control statements x enclosing constructs
+# break / continue / return (with and without value) placed in EVERY combination of enclosing constructs up to a
+# given depth (module level, function literal, callback argument, method, constructor, if / else / else-if, while
+# body, from body, class body).  Exhaustive, not sampled: e.g. `while { fn() { break } }`, loop in function in loop,
+# return in loop in function, break in if in function in loop.  Expected verdict: accepted or diagnosed, never a crash.
+
+CONTROL_STMTS = ["break", "continue", "return", "return 1", "return b", "return nil",
+                 "if b { break }", "if b { continue } else { return }", "while b { break }\nbreak", "from 0 to 2 { continue }\ncontinue"]
+
+# {s} = the nested text, {d} = depth (keeps names unique)
+CONTROL_WRAPPERS = {
+    "fnlit": "w{d} = fn() {{\n{s}\n}}\nw{d}()",
+    "fnlit-int": "v{d} = fn(a{d}: int) -> int {{\n{s}\nreturn a{d}\n}}\nprint v{d}(1)",
+    "fnarg": "print l.map(fn(x{d}: int) -> int {{\n{s}\nreturn x{d}\n}})",
+    "method": "class K{d} {{\n\tfn h(self) {{\n{s}\n\t}}\n}}\nK{d}().h()",
+    "constructor": "class C{d} {{\n\tconstructor(self) {{\n{s}\n\t}}\n}}\nC{d}()",
+    "classbody": "class B{d} {{\n{s}\n}}",
+    "if": "if b {{\n{s}\n}}",
+    "else": "if b {{ }} else {{\n{s}\n}}",
+    "elseif": "if b {{ }} else if b {{\n{s}\n}}",
+    "while": "while b {{\n{s}\nb = false\n}}",
+    "from": "from 0 to 3, k{d} {{\n{s}\n}}",
+}
+CONTROL_PRELUDE = "b = true\nl: [int...] = [1, 2]\n"
+
+
+def control_nesting_cases(max_depth=3, stmts=None):
+    """-> list of (name, text): every statement x every wrapper chain (outermost first) of length 0..max_depth"""
+    import itertools
+    stmts = CONTROL_STMTS if stmts is None else stmts
+    names = list(CONTROL_WRAPPERS)
+    out = []
+    for depth in range(0, max_depth + 1):
+        for chain in itertools.product(names, repeat=depth):
+            for st in stmts:
+                text = st
+                for d, w in reversed(list(enumerate(chain))):
+                    text = CONTROL_WRAPPERS[w].format(s=text, d=d)
+                out.append(("%s@%s" % (st.split("\n")[0], ">".join(chain) or "module"), CONTROL_PRELUDE + text + "\n"))
+    return out
